@@ -452,3 +452,42 @@ Proof.
     apply in_flat_map in Hy'. destruct Hy' as (x' & Hx' & Hy'). apply in_map_iff in Hy'.
     destruct Hy' as (c' & E & _). apply app_inj_tail in E. destruct E as [-> _]. contradiction.
 Qed.
+
+(* ---- arbitrary value streams: push never inspects the values, so the reservoir after pushing
+   the stream [vs] holds, slot by slot, the values at the positions [after] holds *)
+Lemma replace_at_map (f : N -> N) l : forall j v, replace_at (map f l) j (f v) = map f (replace_at l j v).
+Proof. induction l as [|x r IH]; intros [|j] v; cbn; auto. f_equal. apply IH. Qed.
+
+Lemma cycle_pushes_map (f : N -> N) cap ps : forall kept i,
+  cycle_pushes cap (map f kept, i) (map (fun p => (f (fst p), snd p)) ps)
+  = (map f (fst (cycle_pushes cap (kept, i) ps)), snd (cycle_pushes cap (kept, i) ps)).
+Proof.
+  induction ps as [|[v c] r IH]; intros kept i; [reflexivity|].
+  cbn [map cycle_pushes cycle_push fst snd].
+  destruct (i <? cap); cbn [fst].
+  - rewrite <- IH. rewrite map_app. reflexivity.
+  - destruct (c mod (i + 1) <? cap).
+    + rewrite <- IH, replace_at_map. reflexivity.
+    + rewrite <- IH. reflexivity.
+Qed.
+
+Theorem after_any_stream : forall (f : N -> N) cap cs,
+  values (feedp true (with_capacity cap) (map (fun p => (f (fst p), snd p)) (positions 0 (repeat 0 cap ++ cs))))
+  = map f (values (after true cap cs)).
+Proof.
+  intros f cap cs. unfold after. set (ps := positions 0 (repeat 0 cap ++ cs)).
+  assert (Hlen : (cap <= length ps)%nat).
+  { unfold ps. rewrite positions_length, app_length, repeat_length. lia. }
+  assert (C0 : cap_of (with_capacity cap) = cap) by (unfold cap_of, with_capacity; cbn; apply repeat_length).
+  assert (R0 : rel (with_capacity cap) cycle0) by (apply rel_cycle0_irrelevant; reflexivity).
+  destruct (feedp_rel cap ps _ _ C0 R0) as [[_ R1] C1].
+  destruct (feedp_rel cap (map (fun p => (f (fst p), snd p)) ps) _ _ C0 R0) as [[_ R2] C2].
+  pose proof (cycle_pushes_map f (N.of_nat cap) ps [] 0) as M. cbn [map] in M. fold cycle0 in M.
+  rewrite M in R2. cbn [fst snd] in R2.
+  pose proof (cycle_pushes_inv (N.of_nat cap) ps [] 0) as I. fold cycle0 in I.
+  destruct (cycle_pushes (N.of_nat cap) cycle0 ps) as [kept i] eqn:E. cbn [fst snd] in *.
+  destruct I as (I1 & _); [rewrite N.min_0_l; reflexivity|].
+  rewrite capacity_cap_of in R1, R2. unfold cap_of in *. rewrite C1 in R1. rewrite C2 in R2.
+  rewrite firstn_all' in R1 by lia. rewrite firstn_all' in R2 by lia.
+  rewrite <- R2, <- R1. reflexivity.
+Qed.
